@@ -25,7 +25,7 @@ var TagBoundaries = []int32{15, 16, 2047, 2048, 262143, 262144, 33554431, 335544
 func MX() []*descriptorpb.FileDescriptorProto {
 	// --- other package
 	o := NewFile("mxo/other.proto", "mxo", GenRoot+"mxo")
-	oe := o.Enum("OtherEnum", "OTHER_ZERO", 0, "OTHER_ONE", 1, "OTHER_NEG", -2)
+	oe := o.Enum("OtherEnum", "OTHER_ZERO", 0, "OTHER_ONE", 1, "OTHER_NEG", -2, "OTHER_MAX", 2147483647, "OTHER_MIN", -2147483648)
 	other := o.Msg("Other")
 	other.Field("v", 1, S(Int32))
 	other.Field("s", 2, S(String))
@@ -50,7 +50,8 @@ func MX() []*descriptorpb.FileDescriptorProto {
 	// --- main file
 	f := NewFile("mx/mx.proto", "mx", GenRoot+"mx", "mxo/other.proto", "mx/mx2.proto",
 		"google/protobuf/any.proto", "google/protobuf/timestamp.proto", "google/protobuf/duration.proto",
-		"google/protobuf/field_mask.proto", "cosmos_proto/cosmos.proto")
+		"google/protobuf/field_mask.proto", "cosmos_proto/cosmos.proto",
+		"google/protobuf/struct.proto", "google/protobuf/empty.proto", "google/protobuf/wrappers.proto")
 	f.P.Options.ProtoReflect().Set(cosmos_proto.E_FileAddedIn.TypeDescriptor(), cosmos_proto.E_FileAddedIn.ValueOf("verif 1.0"))
 
 	leaf := f.Msg("Leaf")
@@ -205,6 +206,16 @@ func MX() []*descriptorpb.FileDescriptorProto {
 	wkt.Map("ts_by_id", 7, Int32, M(tsT))
 	wkt.Rep("durs", 8, M(durT))
 	wkt.Map("color_by_flag", 9, Bool, E(color))
+
+	wkt2 := f.Msg("Wkt2") // the remaining well-known types: recursive Struct/Value/ListValue, Empty, wrappers
+	wkt2.Field("st", 1, M(".google.protobuf.Struct"))
+	wkt2.Field("em", 2, M(".google.protobuf.Empty"))
+	wkt2.Field("bv", 3, M(".google.protobuf.BoolValue"))
+	wkt2.Field("sv", 4, M(".google.protobuf.StringValue"))
+	wkt2.Rep("vals", 5, M(".google.protobuf.Value"))
+	wkt2.Map("i64", 6, String, M(".google.protobuf.Int64Value"))
+	wkt2.OneofField("w2", "w_lv", 7, M(".google.protobuf.ListValue"))
+	wkt2.OneofField("w2", "w_by", 8, M(".google.protobuf.BytesValue"))
 
 	enums := f.Msg("Enums") // enums whose declaration order differs from their number order / with aliases
 	enums.Field("d", 1, E(dense))
